@@ -73,7 +73,8 @@ pub enum Edit {
     Breaks(usize),
 }
 
-const BOOKMARKS: [&[i32]; 4] = [&[], &[7], &[100, 2000, -5], &[2147483647, -2147483647, 0]];
+// the last two repeat an entry (adjacent / apart): a list is kept as it is, duplicates included
+const BOOKMARKS: [&[i32]; 6] = [&[], &[7], &[100, 2000, -5], &[2147483647, -2147483647, 0], &[1000, 2500, 2500, 4000], &[0, 5, 0]];
 
 fn combo_colors(i: usize) -> Vec<Color> {
     match i {
